@@ -903,11 +903,12 @@ fn main() {
         "One part per format (avatar .avt, pcboard .pcb, ctrla .msg, renegade .an1 and its alternatives .an2-.an9, ascii .asc, atascii .ata). Buffers: single layer, width 80 (ATASCII 40), \
          height 1..=40, rows = run-structured cell lists (runs of 1..=80 equal cells, optional fill up to the right margin, then cut to a length \
          0..=width with extra weight on width, width-1, width-2, 1, 0), last row never empty (a 'z' is stored when it would be); cells after the end of a row are either unset or explicit blanks on black; \
-         characters 0x20..=0x7E, 0x80..=0xFE and the C0 codes 0x01..=0x1F that the format's reader prints as glyphs, minus the format's lead-ins (Avatar ^V ^Y ^L; PCBoard '@'; Ctrl-A ^A; Renegade '|'; \
+         characters 0x20..=0x7E, 0x80..=0xFE and the C0 codes 0x01..=0x1F that the format's reader prints as glyphs, minus the format's lead-ins (Avatar, PCBoard, Ctrl-A, Renegade: without BEL LF FF CR ESC and ^V ^Y ^L / '@' / ^A / '|'; ASCII: without BEL BS LF FF CR; \
          ATASCII: 0x01..=0x1A and 0x20..=0x7C, i.e. without ESC, the cursor codes 0x1C..0x1F and 0x7D..0x7F), illegal characters replaced by letters by construction; attributes foreground 0..=15 x background 0..=7 per run \
          (ASCII: none; ATASCII: normal / inverse); screen preparation None / ClearScreen / Home uniformly; SaveOptions::new() with lossles_output=true; a 1% share of Ctrl-A / Renegade / ASCII buffers starts with the CP437 characters EF BB BF. \
          Non-trivial: at least one full-width row or at least 3 attribute changes inside one row; distinct by hash of the case. Failure key = format | first violated clause (char, bg, fg, size, save_err, load_err) of the reduced case | \
-         input features the reduced case needs (features are removed greedily in a fixed order; a feature is named when its removal makes the case pass).",
+         input features the reduced case needs: the features prep_cls/prep_home, utf8_bom_prefix, explicit_trailing_blanks, full_width_row, multirow, empty_row, c0_glyph, high_char, blank_cell, code_like_char (hex digits, X), \
+         high_fg, bg_color (ATASCII: inverse), fg_color, long_run (> 3 equal cells), equal_chars are removed greedily in this fixed order; a removal is kept while the case still fails, a feature is named when its removal makes the case pass.",
     );
     eng.assume("a cell shows palette RGB of its foreground (entry+8 when bold and entry<8) and background as Buffer::render_to_rgba does; saved colours are the entries of the DOS default palette");
     eng.assume("cells missing from the loaded buffer count as blank on black; cells after the end of a saved row and outside the saved rectangle must load as NUL/space on black (foreground not compared there); NUL and space are one blank");
